@@ -1867,7 +1867,7 @@ func compare(res *vh.Result, a vh.Args, cases []*testCase, searchOnly bool) {
 func main() {
 	a := vh.ParseArgs()
 	res := vh.NewResult("C16", a.Seed, a.Tier)
-	res.Rule = "Paillier: keys general/Blum/safe at 2048 bits (NewLegacySecretKey floor) and general 3072 (NewSecretKey floor), stored in corpus/c16/keys.txt (all flavours at 3072 in the thorough tier); random register-machine sequences (<= 8 ops quick, <= 30 thorough) of encrypt / op / 3-ary op / scalar / shift / re-randomise / inverse / raw unit, each on the public-key or the secret-key (CRT) path at random, then Decrypt and Open; plaintexts 0, 1, N-1, +-floor(N/2) and neighbours, multiples of p and q; nonces 1, 2, N-1, N-2, random; scalars 0, +-1, +-2, +-N, +-(N+-1), > N, multiples of phi(p^2), +-N^2, lambda. Every token is compared model = implementation (corr) and implementation = math/big textbook oracle (prop). Single-operation cases for constructors, symmetric range, plaintext/nonce algebra on both paths, key-size floors. ElGamal on k256, p256, ed25519 prime subgroup, BLS12-381 G1 and G2 through the exponent: model exponents e are checked as g^e == implementation point. One evaluation = one operation token; non-trivial = not refused."
+	res.Rule = "Paillier: keys general/Blum/safe at 2048 bits (NewLegacySecretKey floor) and general 3072 (NewSecretKey floor), stored in corpus/c16/keys.txt (all flavours at 3072 in the thorough tier); random register-machine sequences (<= 8 ops quick, <= 30 thorough) of encrypt / op / 3-ary op / scalar / shift / re-randomise / inverse / raw unit, each on the public-key or the secret-key (CRT) path at random, then Decrypt and Open; plaintexts 0, 1, N-1, +-floor(N/2) and neighbours, multiples of p and q; nonces 1, 2, N-1, N-2, random; scalars 0, +-1, +-2, +-N, +-(N+-1), > N, multiples of phi(p^2), +-N^2, lambda; per key a set of wide scalars on both paths and on plaintext / nonce scaling: +-(2^bitlen(N^2)+3), -2^bitlen(N^2), 3N^2+7, -(5N^2+1), N^2+1, 2^(2 bitlen(N^2))+1 plus random picks (all of +-(N-1), +-N, +-(N^2+-1), +-2^bitlen(N), k N^2+small, random 1.5x and 3x bitlen(N^2) in the thorough tier); ElGamal scalars/nonces +-q, +-(q+1), 2^256+-1, q^2, wider than 2 bitlen(q) bits, passed unreduced to the library. Every token is compared model = implementation (corr) and implementation = math/big textbook oracle (prop). Single-operation cases for constructors, symmetric range, plaintext/nonce algebra on both paths, key-size floors. ElGamal on k256, p256, ed25519 prime subgroup, BLS12-381 G1 and G2 through the exponent: model exponents e are checked as g^e == implementation point. One evaluation = one operation token; non-trivial = not refused."
 
 	var cases []*testCase
 	if a.Replay != "" {
